@@ -109,7 +109,7 @@ def run_campaign(pid, p, eng, binp, tier, seed, scratch, exclude):
     outs = []
     cmds = []
     for i in range(procs):
-        out = os.path.join(scratch, "%s-%s-%d" % (eng["harness"], tier, i))
+        out = os.path.join(scratch, "%s-%s-%d" % (eng.get("name", eng["harness"]), tier, i))
         os.makedirs(out, exist_ok=True)
         outs.append(out)
         if eng["type"] == "pbt":
